@@ -9,65 +9,7 @@
 module L = Stdlib.List
 open BinNums
 open Datatypes
-
-(* ---------- numbers: coq_N <-> unsigned 64-bit ---------- *)
-let rec pos_of_u64 (x : int64) : positive =
-  if Int64.equal x 1L then Coq_xH
-  else
-    let rest = pos_of_u64 (Int64.shift_right_logical x 1) in
-    if Int64.equal (Int64.logand x 1L) 1L then Coq_xI rest else Coq_xO rest
-
-let n_of_u64 (x : int64) : coq_N = if Int64.equal x 0L then N0 else Npos (pos_of_u64 x)
-let n_of_int (i : int) : coq_N = n_of_u64 (Int64.of_int i)
-
-let rec u64_of_pos (p : positive) : int64 =
-  match p with
-  | Coq_xH -> 1L
-  | Coq_xO q -> Int64.shift_left (u64_of_pos q) 1
-  | Coq_xI q -> Int64.logor (Int64.shift_left (u64_of_pos q) 1) 1L
-
-let u64_of_n (n : coq_N) : int64 = match n with N0 -> 0L | Npos p -> u64_of_pos p
-let int_of_n (n : coq_N) : int = Int64.to_int (u64_of_n n)
-let string_of_n (n : coq_N) : string = Printf.sprintf "%Lu" (u64_of_n n)
-let n_of_string (s : string) : coq_N = n_of_u64 (Int64.of_string ("0u" ^ s))
-
-let rec nat_of_int (i : int) : nat = if i <= 0 then O else S (nat_of_int (i - 1))
-
-let usize_max = Base.usize_max
-let lim_of_string s = if s = "max" then usize_max else n_of_string s
-let string_of_lim n = if BinNat.N.eqb n usize_max then "max" else string_of_n n
-
-(* ---------- strings ---------- *)
-let hexdigit c =
-  match c with
-  | '0' .. '9' -> Char.code c - 48
-  | 'a' .. 'f' -> Char.code c - 87
-  | _ -> failwith "bad hex"
-
-let bytes_of_hex (h : string) : coq_N list =
-  if h = "-" then []
-  else begin
-    let n = String.length h / 2 in
-    let rec go i acc =
-      if i < 0 then acc
-      else go (i - 1) (n_of_int ((hexdigit h.[2 * i] * 16) + hexdigit h.[(2 * i) + 1]) :: acc)
-    in
-    go (n - 1) []
-  end
-
-let hex_of_bytes (s : coq_N list) : string =
-  if s = [] then "-"
-  else begin
-    let b = Buffer.create 32 in
-    L.iter (fun x -> Buffer.add_string b (Printf.sprintf "%02x" (int_of_n x))) s;
-    Buffer.contents b
-  end
-
-let rec take n l = if n <= 0 then [] else match l with [] -> [] | x :: t -> x :: take (n - 1) t
-let rec drop n l = if n <= 0 then l else match l with [] -> [] | _ :: t -> drop (n - 1) t
-
-let split_on c s = String.split_on_char c s
-let hexlist s = if s = "." || s = "" then [] else L.map bytes_of_hex (split_on ',' s)
+open Util
 
 (* ---------- model instance ---------- *)
 let variant = ref 'B'
@@ -411,7 +353,20 @@ let run_case oc (line : string) =
       digests "end";
       Printf.fprintf oc "END %s\n" id
 
+let print_keys () =
+  L.iter
+    (fun (name, kt) ->
+      L.iter
+        (fun ((lo, hi), b) ->
+          (* hi is exclusive and may be 2^64: print hi-1 inclusive *)
+          Printf.printf "SUMMARY %s %s %s %s\n" name (string_of_n lo)
+            (string_of_n (BinNat.N.sub hi (n_of_int 1)))
+            (if b then "some" else "none"))
+        (Keys.summary kt))
+    [ ("micro", Keys.micro_spur); ("mini", Keys.mini_spur); ("spur", Keys.spur); ("large", Keys.large_spur) ]
+
 let () =
+  if Array.length Sys.argv > 1 && Sys.argv.(1) = "--keys" then (print_keys (); exit 0);
   let cases = Sys.argv.(1) and results = Sys.argv.(2) in
   if Array.length Sys.argv > 3 then variant := Sys.argv.(3).[0];
   let ic = open_in cases and oc = open_out results in
